@@ -281,7 +281,25 @@ def tensor_method(it, tv, name, args, kwargs, node):
         except ShapeMismatch as e:
             it.shape_errors.append((it.site(node), str(e)))
             new_shape = None
-        if t is None:
+        pp = getattr(tv.obj, "prod_parts", None)
+        if t is not None and name == "sum" and axes == (-1,) and not tv.view and pp is not None and pp[0] == t:
+            _, pa, psa, pb, psb = pp
+            if psa is not None and psb is not None:
+                if len(psb) == 1 and len(psa) >= 1 and psa[-1] == psb[0]:
+                    t = None
+                    nt_override = T.app("matmul", pa, pb)
+                elif len(psa) == 1 and len(psb) >= 1 and psb[-1] == psa[0]:
+                    t = None
+                    nt_override = T.app("matmul", pb, pa)
+                else:
+                    nt_override = None
+            else:
+                nt_override = None
+        else:
+            nt_override = None
+        if nt_override is not None:
+            nt = nt_override
+        elif t is None:
             nt = None
         elif name == "logsumexp":
             nt = T.log(T.app("sum", T.exp(t), axes))
